@@ -539,3 +539,20 @@ def subMask : Sub → Idx → Bool
   | _, _ => false
 
 end GlueVerif.Stats
+
+namespace GlueVerif.Stats
+
+/-- Hypothesis of the per-bin theorem (linear bins), decidable: the range is non-degenerate, the nudge
+`eps` is small against the bin width, and every kept value is either the upper range end or lies at
+least `k·eps/n` above the lower edge of its textbook bin `k` (i.e. not on — or within the nudge
+above — an interior bin edge). -/
+def clearOfEdges (lo hi eps : Rat) (n : Nat) (x : Rat) : Bool :=
+  x == hi ||
+    (let k := specBinLin lo hi n x
+     decide (lo + (k : Rat) * (hi + eps - lo) / n ≤ x))
+
+def histP (lo hi eps : Rat) (n : Nat) (kept : List (Rat × Rat)) : Bool :=
+  decide (lo < hi) && decide (((n : Rat) - 1) * eps ≤ hi - lo) &&
+    kept.all fun p => clearOfEdges lo hi eps n p.1
+
+end GlueVerif.Stats
